@@ -105,7 +105,7 @@ def all_of(conds: list):
 # ---------------------------------------------------------------------------------------------
 class Globals:
     def __init__(self, ctx, prefix: str = 'g', strict: bool = False):
-        self.vals = {k: ctx.real(f"{prefix}_{k}", lo=0, lo_strict=strict) for k in ('ro', 'mw', 'fl', 'rs')}
+        self.vals = {k: ctx.real(f"{prefix}_{k}", lo=0, lo_strict=strict, reuse=True) for k in ('ro', 'mw', 'fl', 'rs')}
 
     def table(self) -> Dict[GlobalRegistryKey, Any]:
         return {GKEY[k]: v for k, v in self.vals.items()}
@@ -141,7 +141,7 @@ class Node:
     def qubit_channels(self) -> List[tuple]:
         """(qubit, channel-name) pairs this step occupies, from the *program*."""
         k = self.kind
-        if k[0] == 'W':
+        if k[0] in ('W', 'R'):
             return [(k[1], k[2])]
         if k[0] == 'V':
             return [(k[2], k[3] if k[1] != 'SingleQubitOperation' else 'ALL')]
@@ -191,6 +191,8 @@ class Built:
         self.all_nodes: List[Node] = []
         self.durs: Dict[str, Any] = {}
         self.share_links = False
+        self.registry = DurationRegistry()
+        self.reg_keys: List[str] = []
 
     def leaves(self) -> List[Node]:
         out = []
@@ -218,23 +220,31 @@ def _make_leaf(ctx, node: Node, circuit: DeclarativeCircuit, relation, built: Bu
     if relation is not None:
         kw['relation'] = relation
     if k[0] == 'W':
-        node.dur = ctx.real('d_' + node.label().replace('.', '_'), lo=0)
+        node.dur = ctx.real('d_' + node.label().replace('.', '_'), lo=0, reuse=True)
         built.durs[node.label()] = node.dur
         return co.Wait(k[1], qubit_channel=CH[k[2]], duration_strategy=FixedDurationStrategy(node.dur), **kw)
     if k[0] == 'V':
-        node.dur = ctx.real('d_' + node.label().replace('.', '_'), lo=0)
+        node.dur = ctx.real('d_' + node.label().replace('.', '_'), lo=0, reuse=True)
         built.durs[node.label()] = node.dur
         cls = getattr(co, k[1])
         if k[1] == 'SingleQubitOperation':
             return cls(k[2], duration_strategy=FixedDurationStrategy(node.dur), **kw)
         return cls(k[2], qubit_channel=CH[k[3]], duration_strategy=FixedDurationStrategy(node.dur), **kw)
     if k[0] == 'T':
-        node.dur = ctx.real('d_' + node.label().replace('.', '_'), lo=0)
+        node.dur = ctx.real('d_' + node.label().replace('.', '_'), lo=0, reuse=True)
         built.durs[node.label()] = node.dur
         cls = getattr(co, k[1])
         if k[1] == 'VirtualTwoQubitVacant':
             return cls(k[2][0], k[2][1], qubit_channel=CH[k[3]], duration_strategy=FixedDurationStrategy(node.dur), **kw)
         return cls(k[2][0], k[2][1], duration_strategy=FixedDurationStrategy(node.dur), **kw)
+    if k[0] == 'R':
+        # Wait whose duration is looked up in a DurationRegistry (value symbolic, may be changed later by the history)
+        key = 'key_' + node.label().replace('.', '_')
+        node.dur = ctx.real('v_' + node.label().replace('.', '_'), lo=0, reuse=True)
+        built.registry.set_registry_at(key, node.dur)
+        built.reg_keys.append(key)
+        built.durs[node.label()] = node.dur
+        return co.Wait(k[1], qubit_channel=CH[k[2]], duration_strategy=RegistryDurationStrategy(registry=built.registry, registry_key=key), **kw)
     if k[0] == 'G':
         cls = getattr(co, k[1])
         return cls(*k[2], **kw)
@@ -294,6 +304,9 @@ def _same_kind(a, b) -> bool:
     sa, sb = getattr(a, 'duration_strategy', None), getattr(b, 'duration_strategy', None)
     if isinstance(sa, FixedDurationStrategy) and isinstance(sb, FixedDurationStrategy):
         if sa is not sb and not (type(sa.duration) in (int, float) and sa.duration == sb.duration and type(sb.duration) in (int, float)):
+            return False
+    elif isinstance(sa, RegistryDurationStrategy) or isinstance(sb, RegistryDurationStrategy):
+        if sa is not sb:
             return False
     return True
 
